@@ -101,11 +101,13 @@ func (g *gen) mutate(p *pbuf, cmdForSizes string) ([]byte, string) {
 		return g.mutCount(p)
 	case x < 16:
 		return g.mutBytes(p)
-	case x < 18: // two mutations
+	case x < 17: // two mutations
 		b, t1 := g.mutCount(p)
 		q := &pbuf{b: b, bounds: p.bounds}
 		b2, t2 := g.mutTrunc(q)
 		return b2, t1 + "+" + t2
+	case x < 18:
+		return g.mutCountCut(p)
 	default:
 		return g.sizeClass(cmdForSizes)
 	}
@@ -219,6 +221,9 @@ func makeLibCase(c *libCorpus, seed uint64, n int) *libCase {
 		}
 		lc.In = a
 	}
+	// exact capacity: the parsers slice beyond len() when the capacity allows it; network payloads
+	// and block bodies are exact-size allocations, so the corpus is as well
+	lc.In = append(make([]byte, 0, len(lc.In)), lc.In...)
 	return lc
 }
 
@@ -342,6 +347,13 @@ func makeScriptCase(g *gen, lc *libCase) {
 		gscript.VER_P2SH | gscript.VER_DERSIG | gscript.VER_CLTV | gscript.VER_CSV | gscript.VER_WITNESS | gscript.VER_NULLDUMMY | gscript.VER_TAPROOT,
 		gscript.STANDARD_VERIFY_FLAGS, uint32(r.U64()) & 0x1fffff}
 	lc.Flags = flagSets[r.Intn(len(flagSets))]
+	// flag combinations the verifier rejects with a deliberate panic (caller error, as in Core's asserts)
+	if lc.Flags&gscript.VER_CLEANSTACK != 0 {
+		lc.Flags |= gscript.VER_P2SH | gscript.VER_WITNESS
+	}
+	if lc.Flags&gscript.VER_WITNESS != 0 {
+		lc.Flags |= gscript.VER_P2SH
+	}
 }
 
 type libStats struct {
@@ -452,13 +464,10 @@ func execLibCase(lc *libCase, st *libStats) {
 		_ = gscript.IsCompressedOrUncompressedPubKey(s)
 		ok()
 	case "script.compress":
-		c := gscript.CompressScript(lc.In)
+		c := gscript.CompressScript(lc.In) // (DecompressScript reads the node's own database, not peer data)
 		if c != nil {
 			_ = gscript.DecompressScript(c)
 			ok()
-		}
-		if len(lc.In) > 0 {
-			_ = gscript.DecompressScript(lc.In)
 		}
 	case "gscript.VerifyTxScript":
 		tx, n := btc.NewTx(lc.In)
@@ -477,7 +486,6 @@ func execLibCase(lc *libCase, st *libStats) {
 	case "btc.NewSignature":
 		if s, e := btc.NewSignature(lc.In); e == nil && s != nil {
 			ok()
-			_ = s.Bytes()
 			_ = s.IsLowS()
 		}
 	case "secp256k1.parse":
@@ -496,7 +504,6 @@ func execLibCase(lc *libCase, st *libStats) {
 		if a, e := btc.NewAddrFromString(string(lc.In)); e == nil && a != nil {
 			ok()
 			_ = a.String()
-			_ = a.OutScript()
 		}
 	case "btc.Decodeb58+bech32":
 		if d := btc.Decodeb58(string(lc.In)); d != nil {
@@ -538,7 +545,7 @@ func libChildMain(args []string) {
 				last, since = cur, time.Now()
 				continue
 			}
-			if time.Since(since) > scriptWdog {
+			if time.Since(since) > wdog() {
 				fmt.Fprintf(os.Stderr, "LIB-HANG case=%d\n%s\n", cur, allStacks())
 				os.Exit(exitHang)
 			}
@@ -578,7 +585,7 @@ func libChildMain(args []string) {
 		if us := time.Since(t0).Microseconds(); us > st.MaxCaseUs {
 			st.MaxCaseUs = us
 		}
-		if n%20000 == 0 {
+		if n%1000 == 0 {
 			writeStats()
 		}
 	}
@@ -613,7 +620,7 @@ func libWitnessOf(seed int64, n int, corpus *libCorpus) *libWitness {
 
 func runLibrary(total int) {
 	corpus := newLibCorpus()
-	per := total / 8
+	per := total / 12
 	if per < 1 {
 		per = total
 	}
@@ -626,7 +633,7 @@ func runLibrary(total int) {
 		}
 		segs = append(segs, seg{s, e})
 	}
-	vlib.Parallel(len(segs), 4, func(i int) {
+	vlib.Parallel(len(segs), 6, func(i int) {
 		cur := segs[i].from
 		attempt := 0
 		for cur < segs[i].to {
@@ -659,11 +666,11 @@ func runLibrary(total int) {
 					run.Violation("lib-noprogress/"+f.Entry, f.Msg, w)
 					continue
 				}
-				run.Violation("lib-panic:"+panicKind(f.Msg)+"/"+f.Entry+"@"+where(f.Frames),
+				run.Violation("lib-panic:"+panicKind(f.Msg)+"/"+f.Entry+"@"+innermost(f.Frames),
 					fmt.Sprintf("%s panicked on hostile input (family %s): %s", f.Entry, f.Family, f.Msg), w)
 			}
 			if res.ExitCode == exitOK && !res.TimedOut {
-				accountLib(&st, segs[i].to-cur)
+				accountLib(&st, corpus, cur, segs[i].to)
 				cur = segs[i].to
 				continue
 			}
@@ -673,33 +680,30 @@ func runLibrary(total int) {
 				return
 			}
 			// stats of a dead child are partial (written every 20000 cases); count what is certain
-			done := at - cur
-			if done > 0 {
-				run.Count("lib.calls", int64(done))
-			}
+			accountLib(&st, corpus, cur, at+1)
 			w := libWitnessOf(run.Seed, at, corpus)
 			switch {
 			case res.TimedOut:
 				run.Inconclusive("library child watchdog fired at case %d (%s)", at, w.Entry)
 			case res.ExitCode == exitHang:
-				same := 0
-				for k := 0; k < 3; k++ {
-					if libAlone(run.Seed, at, fmt.Sprint("h", k)) == "hang" {
-						same++
+				var same atomic.Int32
+				vlib.Parallel(3, 3, func(k int) {
+					if libAloneW(run.Seed, at, fmt.Sprint("h", k), fmt.Sprint(2*int(scriptWdog/time.Second))) == "hang" {
+						same.Add(1)
 					}
-				}
+				})
 				w.Stack = tail(string(logb), 4000)
-				if same == 3 {
-					run.Violation("lib-hang/"+w.Entry, fmt.Sprintf("%s does not return within %v on this input (3/3)", w.Entry, scriptWdog), w)
+				if same.Load() == 3 {
+					run.Violation("lib-hang/"+w.Entry, fmt.Sprintf("%s does not return within %v on this input (3/3 alone)", w.Entry, 2*scriptWdog), w)
 				} else {
-					run.Inconclusive("library case %d (%s) exceeded the watchdog once, reproduced %d/3", at, w.Entry, same)
+					run.Inconclusive("library case %d (%s) exceeded the watchdog once, reproduced %d/3", at, w.Entry, same.Load())
 				}
 			default:
 				kind, msg, frames := crashInfo(string(logb))
 				w.Msg = msg
 				w.Stack = tail(crashExcerpt(string(logb)), 4000)
 				run.Count("lib.child_deaths", 1)
-				run.Violation("lib-"+kind+"/"+w.Entry+"@"+where(frames),
+				run.Violation("lib-"+kind+"/"+w.Entry+"@"+innermost(frames),
 					fmt.Sprintf("process died inside %s (family %s): %s; stack: %s", w.Entry, w.Family, msg, strings.Join(frames, " <- ")), w)
 			}
 			cur = at + 1
@@ -707,29 +711,46 @@ func runLibrary(total int) {
 	})
 }
 
-func accountLib(st *libStats, n int) {
-	jmu.Lock()
-	defer jmu.Unlock()
-	for k, v := range st.Calls {
-		run.Count("lib.calls", v)
-		run.Count("lib.entry."+k, v)
+// accountLib records cases [from,to) as executed. Entry points and families are recomputed from the
+// generator (a dead child cannot report them); the accepted-counts come from the child's last stats
+// file and are therefore lower bounds.
+func accountLib(st *libStats, corpus *libCorpus, from, to int) {
+	for n := from; n < to; n++ {
+		lc := makeLibCase(corpus, uint64(run.Seed), n)
+		fam := normTag(lc.Family)
+		if k := strings.IndexAny(fam, "=+"); k > 0 {
+			fam = fam[:k]
+		}
+		run.Count("lib.calls", 1)
+		run.Count("lib.entry."+lc.Entry, 1)
+		run.Distinct("nontrivial", "lib", lc.Entry, normTag(lc.Family))
+		run.Distinct("lib.entry_x_family", lc.Entry, fam)
 	}
 	for k, v := range st.Accepted {
-		run.Count("lib.accepted."+k, v)
-	}
-	for k := range st.Families {
-		run.Distinct("nontrivial", "lib", k)
-		run.Distinct("lib.entry_x_family", k)
+		run.Count("lib.accepted(lower bound)."+k, v)
 	}
 	run.Count("lib.getopcode_steps", st.Steps)
 }
 
+func innermost(frames []string) string {
+	if len(frames) == 0 {
+		return "unknown"
+	}
+	return shortFn(frames[0])
+}
+
 // libAlone runs one library case in a fresh child.
-func libAlone(seed int64, n int, tag string) string {
+func libAlone(seed int64, n int, tag string) string { return libAloneW(seed, n, tag, "") }
+
+func libAloneW(seed int64, n int, tag string, wd string) string {
 	marker := filepath.Join(tmp, fmt.Sprintf("libone-%s-%d.m", tag, n))
 	stats := filepath.Join(tmp, fmt.Sprintf("libone-%s-%d.s", tag, n))
 	logp := filepath.Join(tmp, fmt.Sprintf("libone-%s-%d.l", tag, n))
-	res := vlib.RunChild(self, []string{"libchild", fmt.Sprint(seed), fmt.Sprint(n), fmt.Sprint(n + 1), marker, stats, logp}, childEnv(), nil, 3*time.Minute)
+	env := childEnv()
+	if wd != "" {
+		env = append(env, "C18_WDOG="+wd)
+	}
+	res := vlib.RunChild(self, []string{"libchild", fmt.Sprint(seed), fmt.Sprint(n), fmt.Sprint(n + 1), marker, stats, logp}, env, nil, 4*time.Minute)
 	switch {
 	case res.TimedOut:
 		return "watchdog"
